@@ -465,8 +465,9 @@ impl WindowedStream {
                             windows.push(window);
                         }
 
-                        // Slide forward (overlap 50%)
-                        current_start += window_ms / 2;
+                        // Slide forward (overlap 50%), by at least 1 ms: for a duration of
+                        // 1 ms (or less) `window_ms / 2` is 0 and the loop would never advance
+                        current_start += (window_ms / 2).max(1);
                     }
                 }
             }
